@@ -14,6 +14,7 @@ import (
 
 type c19Features struct {
 	Version, Extends, ExtendsFile, Include, EnvFile, Interp, Override, Profiles, Resources, NoServices, Named bool
+	ResetTag bool // round 7: the override file uses !reset / !override (document-specific paths in the reset processor)
 }
 
 func (f c19Features) String() string {
@@ -34,6 +35,7 @@ func (f c19Features) String() string {
 	add(f.Resources, "resources")
 	add(f.NoServices, "no-services")
 	add(f.Named, "name")
+	add(f.ResetTag, "reset-tags")
 	return strings.Join(s, "+")
 }
 
@@ -133,6 +135,12 @@ func genC19Project(rng *rand.Rand, tag string) (core.LoadReq, c19Features) {
 	req := core.LoadReq{Files: files, ConfigFiles: []string{"compose.yaml"}, Env: env}
 	if f.Override && nsvc > 0 {
 		o := fmt.Sprintf("services:\n  s0:\n    environment:\n      OVER: \"%s\"\n    labels:\n      over: \"1\"\n", tag)
+		if f.ResetTag = p(2); f.ResetTag {
+			o = fmt.Sprintf("services:\n  s0:\n    environment: !override\n      OVER: \"%s\"\n    labels: !reset null\n    ports: !override\n      - \"%d:80\"\n", tag, 7000+rng.Intn(100))
+			if nsvc > 1 && p(2) {
+				o += "  s1:\n    depends_on: !reset []\n    image: !override \"over:" + tag + "\"\n"
+			}
+		}
 		if f.Version {
 			o = "version: \"3.8\"\n" + o
 		}
@@ -193,7 +201,7 @@ func runC19Race(ctx *core.Ctx) {
 		}
 		return
 	}
-	n := ctx.Pick(96, 3000) // quick: 16 jobs of each of the six shapes, every goroutine count 2..16 at least once
+	n := ctx.Pick(126, 3600) // quick: 14 jobs of each of the nine shapes, every goroutine count 2..16 at least once
 	for i := 0; i < n; i++ {
 		var job raceJob
 		job.Seed = ctx.Rng.Int63()
@@ -203,7 +211,8 @@ func runC19Race(ctx *core.Ctx) {
 			g = 2 + i // every goroutine count is used at least once
 		}
 		job.Rounds = 1 + ctx.Rng.Intn(3)
-		shape := []string{"equal", "different", "mixed", "shared-env", "shared-env-different", "malformed-mix"}[i%6]
+		shape := []string{"equal", "different", "mixed", "shared-env", "shared-env-different", "malformed-mix",
+			"shared-inputs", "shared-inputs-different", "shared-inputs-env"}[i%9]
 		tag := func() string { return fmt.Sprintf("%d", ctx.Rng.Intn(1000)) }
 		switch shape {
 		case "equal":
@@ -243,6 +252,36 @@ func runC19Race(ctx *core.Ctx) {
 				job.Assign = append(job.Assign, j%k)
 			}
 			job.ShareEnv = true
+		case "shared-inputs", "shared-inputs-different", "shared-inputs-env":
+			// round 7: what a caller does that prepares its arguments once (types.ToConfigFiles, one environment from
+			// os.Environ, one option list) and then loads from several goroutines: the values are shared BY REFERENCE
+			k := 1
+			if shape == "shared-inputs-different" {
+				k = 1 + ctx.Rng.Intn(3)
+			}
+			for j := 0; j < k; j++ {
+				var in core.LoadReq
+				var f c19Features
+				if ctx.Rng.Intn(5) == 0 {
+					var kind string
+					in, kind = genC19Malformed(ctx.Rng, tag())
+					ctx.Count("race:malformed:" + kind)
+				} else {
+					in, f = genC19Project(ctx.Rng, tag())
+					ctx.Count("race:features:" + f.String())
+				}
+				job.Inputs = append(job.Inputs, in)
+				nm := "name-guessed"
+				if in.ProjectName == "" {
+					nm = "name-from-file"
+				}
+				ctx.Count("race:shared-inputs:" + nm + fmt.Sprintf(":files=%d", len(in.ConfigFiles)))
+			}
+			for j := 0; j < g; j++ {
+				job.Assign = append(job.Assign, j%k)
+			}
+			job.ShareInputs, job.GuessName = true, true
+			job.ShareEnv = shape == "shared-inputs-env"
 		case "malformed-mix":
 			k := 2 + ctx.Rng.Intn(4)
 			for j := 0; j < k; j++ {
@@ -266,7 +305,7 @@ func runC19Race(ctx *core.Ctx) {
 				job.TransformE = 1
 			}
 		}
-		job.SeqFirst = ctx.Rng.Intn(4) == 0
+		job.SeqFirst = ctx.Rng.Intn(4) == 0 && !job.ShareInputs // shared inputs: always cold
 		ctx.Count("race:shape:" + shape)
 		ctx.Count(fmt.Sprintf("race:goroutines:%02d", g))
 		ctx.Add("race", job)
